@@ -48,7 +48,10 @@ C02 (evaluated on every tree by ./check C02).  "Same node" is stated as: same ra
   h = `ndeNodeA` (no dead-end descent; fails = F5) and for the named flag `anonLeafOK`
 * smallest descendant for a byte or point range  P for NON-EMPTY ranges, no hypothesis on the tree: `descendant_for_byte_range_spec_anon`,
   `descendant_for_point_range_spec_partial` (both flags); on `FT`: `descendant_for_byte_range_ft_spec`, `named_descendant_for_byte_range_ft_spec`,
-  `descendant_for_point_range_ft_spec` (all four functions).  EMPTY ranges: J (F6).  Receiver other than the root: the theorems hold for every receiver, the `FT` link is for the root
+  `descendant_for_point_range_ft_spec` (all four functions).  EMPTY byte ranges: P(h = `emptyOK`, exact on the data; fails = F6): `descendant_for_empty_byte_range_port`,
+  `descendant_for_empty_byte_range_ft_spec` (`EmptyRange.lean`).  EMPTY point ranges: port = plain raw search, no hypothesis:
+  `descendant_for_empty_point_range_port`, boundary rule `dfrIdealEP_boundary_partial`; on `FT` only via the byte search under `agreeEP`:
+  `descendant_for_empty_point_range_ft_spec_partial` (`Round11.lean`; = `FT.descendantForPoints` OPEN, J).  Receiver other than the root: the theorems hold for every receiver, the `FT` link is for the root
 * child-containing-descendant .................. P(h): `child_with_descendant_spec_partial`, `child_with_descendant_spec_empty` (h as for parent)
 * cursor first / last child .................... P: `cursor_first_child_spec`, `cursor_last_child_spec`; = node API `cursor_node_agree_first`
 * cursor next sibling .......................... P(h): `cursor_next_sibling_spec`, `cursor_next_sibling_index_spec`, `cursor_node_agree_next`,
